@@ -12,7 +12,7 @@ from vlib import worldops
 ID = 'C19'
 LEVEL = 'exploration'
 BUDGET = {'quick': 1200, 'thorough': 5000}
-RULE = ('Twin part: in half of the cases every reference attribute is read once BEFORE the shorthand is used, and after the shorthand (and the following frame) the world goes on changing through World calls (entities, processors added / replaced / removed, clear) and every ComponentReference / ProcessorReference attribute is read again: it answers what the World answers now, identically (same object). '
+RULE = ('The controller\'s entity may have a falsy identifier (0, empty string, empty tuple). Twin part: in half of the cases every reference attribute is read once BEFORE the shorthand is used, and after the shorthand (and the following frame) the world goes on changing through World calls (entities, processors added / replaced / removed, clear) and every ComponentReference / ProcessorReference attribute is read again: it answers what the World answers now, identically (same object). '
         'Each case has three parts. (a) TWIN WORLDS: a generated history (create / add / remove / delete / '
         'delete_now / process / add_processor / remove_processor) is applied to two fresh worlds with mirrored '
         'component pairs, a Controller subclass carrying ComponentReference / ProcessorReference descriptors is '
@@ -164,7 +164,9 @@ def strategy():
         'valmode': st.integers(0, 3).map(lambda k: (0, 1, 2, 1)[k]), 'prelife': st.integers(0, 2),
         # warm: every reference attribute is read once before the shorthand is used; ops2: what happens to the world
         # AFTER the shorthand was used (then every reference attribute is read again)
-        'warm': st.integers(0, 1), 'ops2': worldops.chunked(op2, 8, chunk=4)})
+        'warm': st.integers(0, 1), 'ops2': worldops.chunked(op2, 8, chunk=4),
+        # falsy: 0, or which falsy (and perfectly legal) identifier the controller's entity has: 0, '', ()
+        'falsy': st.integers(0, 5).map(lambda k: k if k <= 3 else 0)})
     proto = st.fixed_dictionaries({
         'types': st.lists(st.integers(0, 5), min_size=1, max_size=5),
         'sources': st.lists(st.integers(0, 3), min_size=6, max_size=6),
@@ -252,8 +254,16 @@ def norm(x):
     return x
 
 
+FALSY_IDS = [0, '', ()]
+
+
 def twin_part(spec, facts):
     A, B = Side(), Side()
+    if spec.get('falsy'):
+        for side in (A, B):
+            side.ids.append(side.world.create_entity(side.comp(1, 'falsy-id'),
+                                                     entity_id=FALSY_IDS[spec['falsy'] - 1]))
+        facts['controller_entity_with_a_falsy_id'] += 1
     apply_history(A, spec['ops'])
     apply_history(B, spec['ops'])
     if observe(A) != observe(B):
@@ -261,7 +271,7 @@ def twin_part(spec, facts):
     if not A.ids:
         A.ids.append(A.world.create_entity(A.comp(0, 'seed')))
         B.ids.append(B.world.create_entity(B.comp(0, 'seed')))
-    k = spec['ctl_entity'] % len(A.ids)
+    k = 0 if spec.get('falsy') else spec['ctl_entity'] % len(A.ids)
     ent = A.ids[k]
     variant = spec['variant']
     ctlA, ctlB = Ctl(), Ctl()
